@@ -187,6 +187,81 @@ def terminal_rules(chk, S, r3):
     okl = isinstance(out, T.Term) and out.op == "tree.tree_map" and out.args[1] is A("solution") and isinstance(out.args[0], T.Term) and out.args[0].op == "lam" and isinstance(out.args[0].args[1], T.Term) and out.args[0].args[1].op == "getitem" and out.args[0].args[1].args[1] == -1
     r3.require(okl, "solve_adaptive_terminal_values result", "last entry of every leaf", f"{T.show(out, 4)}", ADAPT)
     S.absorb(it)
+    if okl:
+        terminal_axis_rules(chk, S, r3)
+
+
+def _has_checkpoint_axis(t):
+    """Batch-axis propagation: does this value carry the leading checkpoint axis of the stacked reports (`solution.*` atoms)?"""
+    if isinstance(t, (list, tuple)):
+        return any(_has_checkpoint_axis(x) for x in t)
+    if not isinstance(t, T.Term):
+        return False
+    if T.is_atom(t):
+        return T.atom_name(t).startswith("solution.")
+    if t.op == "getitem":
+        idx = t.args[1]
+        first = idx[0] if isinstance(idx, tuple) and idx else idx
+        if isinstance(first, int) and not isinstance(first, bool):
+            return False  # an integer index removes the leading axis
+        if first is None:
+            return True  # x[None]: a new leading axis
+        return _has_checkpoint_axis(t.args[0])
+    if t.op in ("np.concatenate", "tree_concat", "tree.tree_array_prepend", "np.stack", "lift"):
+        return True
+    if t.op in ("mcall", "attr"):
+        return _has_checkpoint_axis(t.args[0])  # methods of the Gaussian interface act per time point: the receiver decides
+    return any(_has_checkpoint_axis(x) for x in t.args) or any(_has_checkpoint_axis(x) for x in t.kwargs.values())
+
+
+def terminal_axis_rules(chk, S, r3):
+    """`tree_map(lambda s: s[-1], solution)` is 'the last entry of the checkpointed routine' only for leaves that carry the checkpoint axis;
+    on any other array leaf it slices a state axis and corrupts the value."""
+    bad: dict = {}
+    n_ok = 0
+    for sname in ("solver", "solver_mle", "solver_dynamic"):
+        for strategy in STRATEGIES:
+            it = S.interp()
+            solver = make_solver(it, sname, strategy)
+            it.method_hooks[EST + ".MarkovSequence.evaluate_marginals"] = lambda itp, fn, a, kw, site: A("solution.evaluated_marginals")
+            env = TD.TEnv()
+            s0, s, s1 = (typed_solution(it, env, strategy, p_) for p_ in ("solution0", "solution", "solution1"))
+            s.fields["t"] = T.atom("solution.t", ndims={"": 1})
+            s.fields["t"].meta["ndim"] = 1
+            if sname == "solver_mle":
+                s1.fields["auxiliary"] = (A("solution1.lin"), A("solution1.running"), A("solution1.n"))
+                s.fields["auxiliary"] = (A("solution.lin"), A("solution.running"), A("solution.n"))
+            cfg = {"solver": sname, "strategy": strategy}
+            try:
+                out = call(it, method(it, solver, "userfriendly_output"), solution0=s0, solution=s, solution1=s1)
+            except AnalysisError as e:
+                r3.unknown(f"terminal values of {sname} + {strategy}", f"userfriendly_output not analysed: {e}", SOLVERS, cfg)
+                continue
+            S.absorb(it)
+            leaves = {}
+
+            def walk(v, path):
+                if isinstance(v, Rec):
+                    for k_, x in v.fields.items():
+                        walk(x, f"{path}.{k_}")
+                elif isinstance(v, (tuple, list)):
+                    for i_, x in enumerate(v):
+                        walk(x, f"{path}[{i_}]")
+                elif isinstance(v, T.Term):
+                    leaves[path] = v
+
+            walk(out, "solution")
+            mine = [p_ for p_, v in leaves.items() if not _has_checkpoint_axis(v)]
+            for p_ in mine:
+                bad.setdefault(p_, []).append(f"{sname} + {strategy}")
+            if not mine:
+                n_ok += 1
+                r3.ok(f"terminal values of {sname} + {strategy}", f"all {len(leaves)} array leaves of the checkpointed solution carry the checkpoint axis", SOLVERS, cfg)
+    for p_, cfgs in sorted(bad.items()):
+        fams = sorted({c_.split(" + ")[1] for c_ in cfgs})
+        r3.fail(f"terminal values take the last entry of {p_}, which has no checkpoint axis [{', '.join(fams)}]",
+                f"`tree_map(lambda s: s[-1], solution)` also indexes {p_} (configurations: {cfgs}); that leaf is a single state (built from solution1 only), so s[-1] slices its state axis: "
+                "the terminal solution_full is not the last entry of the checkpointed routine and posterior.evaluate_marginals() fails on it", ADAPT)
 
 
 def offgrid_rules(chk, S, r4):
